@@ -54,4 +54,49 @@ HistClauses(o, H, bounds, quant, nosum, nominmax) ==
        \cup (IF nosum THEN (IF ~o.sumz THEN {"sum"} ELSE {})
              ELSE IF quant THEN (IF o.sumq # p.sumq THEN {"sum"} ELSE {})
              ELSE (IF ~o.sumok THEN {"sum"} ELSE {}))
+(* ---- boundary LISTS and configuration ROUTES (an input class of its own) -------------------- *)
+(* The statement quantifies over "all boundary lists"; only some routes by which a list reaches   *)
+(* the aggregator validate it (NewView mask, the reader's aggregation selector, the instrument's  *)
+(* advisory boundaries); a hand-written view function and aggregate.Builder hand it over as it    *)
+(* is.  Whatever the route and the order of the configured list cb, the clauses hold for the      *)
+(* boundaries AS REPORTED in the point (o.bounds, ranks): they are ordered (otherwise the         *)
+(* buckets (lower, upper] overlap and "the bucket of a value" is not defined), they are the       *)
+(* configured boundaries (each at most as often as configured: keeping or dropping a duplicate    *)
+(* are both fine), and every value is counted in the bucket they define.                          *)
+NonDecreasing(b) == \A j \in 1..(Len(b) - 1) : b[j] <= b[j + 1]
+StrictlyIncreasing(b) == \A j \in 1..(Len(b) - 1) : b[j] < b[j + 1]
+BRange(b) == {b[j] : j \in 1..Len(b)}
+BMult(b, x) == Cardinality({j \in 1..Len(b) : b[j] = x})
+RECURSIVE SortFrom(_, _)
+SortFrom(b, S) == IF S = {} THEN <<>>
+                  ELSE LET m == HSetMin(S) IN [j \in 1..BMult(b, m) |-> m] \o SortFrom(b, S \ {m})
+SortSeq(b) == SortFrom(b, BRange(b))          \* the non-decreasing arrangement, multiplicities kept
+ListClass(b) == IF StrictlyIncreasing(b) THEN "increasing"
+                ELSE IF Cardinality(BRange(b)) < Len(b) THEN (IF NonDecreasing(b) THEN "duplicates" ELSE "duplicates-unordered")
+                ELSE IF \A j \in 1..(Len(b) - 1) : b[j] > b[j + 1] THEN "reversed" ELSE "shuffled"
+
+Routes == {"view", "viewfunc", "selector", "advisory"}   \* (+ aggregate.Builder, which "viewfunc" reaches unmodified)
+Validating(rt) == rt # "viewfunc"
+(* a validating route documents that it does not use a list that is not strictly increasing (the  *)
+(* stream then gets the reader's default aggregation: fb, the default boundaries)                 *)
+Refuses(rt, cb) == Validating(rt) /\ ~StrictlyIncreasing(cb)
+
+BoundsKept(ob, cb) == /\ BRange(ob) = BRange(cb)
+                      /\ \A x \in BRange(cb) : BMult(ob, x) <= BMult(cb, x)
+(* refusing a list that is not strictly increasing is a conforming answer on every route; advisory *)
+(* boundaries are a hint, and an empty hint may be read as no hint                                *)
+MayRefuse(rt, cb) == ~StrictlyIncreasing(cb) \/ (rt = "advisory" /\ cb = <<>>)
+
+(* HistClauses for a point that carries its boundaries (o.bounds) and a configuration given as the *)
+(* list as configured (cb): placement is judged against the REPORTED boundaries when they are      *)
+(* ordered, else against the configured ones in order.  A refused configuration (may) is refused   *)
+(* as a whole: the stream then has the reader's default aggregation (boundaries fb, extrema        *)
+(* collected).                                                                                    *)
+HistClausesL(o, H, cb, fb, may, quant, nosum, nominmax) ==
+  LET ord == NonDecreasing(o.bounds)
+      kept == BoundsKept(o.bounds, cb)
+      fell == ~kept /\ may /\ o.bounds = fb
+      o2 == [o EXCEPT !.nb = Len(o.bounds), !.boundsok = kept \/ fell]
+  IN HistClauses(o2, H, IF ord THEN o.bounds ELSE SortSeq(cb), quant, nosum, nominmax /\ ~fell)
+       \cup (IF H # <<>> /\ o.present /\ ~ord THEN {"bounds-order"} ELSE {})
 =============================================================================
